@@ -30,7 +30,7 @@ translator, i.e. of the trusted base."""
 import ast, os, sys, json
 
 REPO = os.environ.get("SUMMER2_REPO", "/repo")
-OUT = os.path.join(os.path.dirname(os.path.abspath(__file__)), "..", "..", "lean", "Summer", "Generated")
+OUT = os.environ.get("GEN_OUT") or os.path.join(os.path.dirname(os.path.abspath(__file__)), "..", "..", "lean", "Summer", "Generated")
 
 
 class Untranslatable(Exception):
@@ -47,6 +47,12 @@ FADECL = Tup(ADJDICT, "Strata", "Strata")
 FADECL5 = Tup(ADJDICT, "Strata", "Strata", "Strata", "Strata")
 
 
+RECORDS = {
+    "FlowReq": {"flow_name": "Str", "source_strata": "Strata", "dest_strata": "Strata", "raw_results": "Bool"},
+    "CompReq": {"compartments": ("List", "Str"), "strata": "Strata"},
+}
+
+
 def lean_type(t):
     if isinstance(t, tuple):
         if t[0] == "Opt": return f"(Option {lean_type(t[1])})"
@@ -55,6 +61,12 @@ def lean_type(t):
     return {"Str": "String", "Bool": "Bool", "Nat": "Nat", "Num": "α", "Strata": "Strata", "Comp": "Comp", "Flow": "(Flow α)",
             "Strat": "(Strat α)", "Adj": "(Adj α)", ADJDICT: "(List (String × Option (Adj α)))", "Expr": "(Expr α)",
             "IdxDict": "(List (String × List Nat))"}[t]
+
+
+def variant_name(t):
+    if isinstance(t, tuple) and t[0] == "List":
+        return variant_name(t[1]) + "s"
+    return t.lower()
 
 
 def is_listlike(t):
@@ -94,7 +106,7 @@ class Ctx:
         c = Ctx(self.tr, self.cls, self.res, self.self_type, self.known)
         c.env = dict(self.env)
         c.counter = self.counter
-        for a in ("in_loop", "loop_k", "ret_types", "fn", "memo"):
+        for a in ("in_loop", "loop_k", "ret_types", "fn", "memo", "recorded"):
             if hasattr(self, a):
                 setattr(c, a, getattr(self, a))
         return c
@@ -227,10 +239,15 @@ class Translator:
             if a[1] == "NatLit" and b[1] == "Nat":
                 return (f"(({a[0]} : α) / (({b[0]} : Nat) : α))", "Num")
             raise Untranslatable("division " + ast.unparse(n))
-        if isinstance(n, ast.ListComp):
+        if isinstance(n, (ast.ListComp, ast.GeneratorExp)):
             return self.listcomp(n, cx)
-        if isinstance(n, ast.GeneratorExp):
-            raise Untranslatable("bare generator " + ast.unparse(n))
+        if isinstance(n, ast.Subscript) and isinstance(n.value, ast.Name) and isinstance(n.slice, ast.Constant) and isinstance(n.slice.value, str):
+            base = cx.env.get(n.value.id)
+            if base and isinstance(base[1], tuple) and base[1][0] == "Rec":
+                flds = RECORDS[base[1][1]]
+                if n.slice.value in flds:
+                    return (f"{base[0]}_{n.slice.value}", flds[n.slice.value])
+            raise Untranslatable("subscript " + ast.unparse(n))
         raise Untranslatable("expression " + ast.unparse(n))
 
     def expr_raw(self, n, cx):
@@ -354,18 +371,32 @@ class Translator:
         elif isinstance(it[1], tuple) and it[1][0] == "List" and isinstance(g.target, ast.Name):
             c2.env[g.target.id] = (g.target.id + "_", it[1][1])
             binder = g.target.id + "_"
+        elif isinstance(it[1], tuple) and it[1][0] == "List" and isinstance(g.target, ast.Tuple) and isinstance(it[1][1], tuple) \
+                and it[1][1][0] == "Tup" and len(it[1][1][1]) == len(g.target.elts) == 2:
+            binder = "p_"
+            c2.env[g.target.elts[0].id] = ("p_.1", it[1][1][1][0]); c2.env[g.target.elts[1].id] = ("p_.2", it[1][1][1][1])
         else:
             raise Untranslatable("comprehension over " + str(it[1]))
-        body = self.expr(n.elt, c2)
+        body = self.tuple_or_expr(n.elt, c2)
         src = it[0]
         for cond in g.ifs:
             src = f"({src}.filter (fun {binder} => {self.truthy(self.expr(cond, c2))}))"
         return (f"({src}.map (fun {binder} => {body[0]}))", Lst(body[1]))
 
+    def tuple_or_expr(self, n, cx):
+        if isinstance(n, ast.Tuple) and len(n.elts) == 2:
+            a, b = self.expr(n.elts[0], cx), self.expr(n.elts[1], cx)
+            return (f"({a[0]}, {b[0]})", Tup(a[1], b[1]))
+        return self.expr(n, cx)
+
     def call(self, n, cx):
         f = n.func
         # ---- builtins
         if isinstance(f, ast.Name):
+            if f.id == "enumerate" and len(n.args) == 1 and not n.keywords:
+                a = self.expr(n.args[0], cx)
+                if isinstance(a[1], tuple) and a[1][0] == "List":
+                    return (f"({a[0]}.zipIdx.map (fun p_ => (p_.2, p_.1)))", Lst(Tup("Nat", a[1][1])))
             if f.id == "frozenset" and len(n.args) == 1:
                 a = self.expr(n.args[0], cx)
                 if a[1] == "StrataItems":
@@ -449,7 +480,7 @@ class Translator:
             if isinstance(pt, list):           # overloaded on a static type test (`type(x) is str`)
                 if t[1] not in pt:
                     raise Untranslatable(f"argument type {t[1]} for {cname}.{mname}")
-                variant = "_" + t[1].lower()
+                variant = "_" + variant_name(t[1])
             elif t[1] != pt and not (t[1] == "StrataItems" and pt == "Strata"):
                 raise Untranslatable(f"argument {pn} of {cname}.{mname}: expected {pt}, got {t[1]} in {ast.unparse(n)}")
             args.append(t[0])
@@ -638,6 +669,21 @@ class Translator:
             if isinstance(tgt, ast.Attribute) and tgt.attr in UNMODELLED_FIELDS:
                 self.notes.append(f"ignored assignment to unmodelled field: {ast.unparse(st)}")
                 return go()
+            if isinstance(tgt, ast.Attribute) and ast.unparse(tgt.value) == "self" and tgt.attr in RECORDED_ATTRS.get((cx.cls, cx.fn), ()):
+                # results the method leaves on `self`: np.array(v, dtype=int) / {k: np.array(v, dtype=int) for k, v in d.items()} / a name
+                v = st.value
+                if isinstance(v, ast.Call) and ast.unparse(v.func) == "np.array" and len(v.args) == 1 and [ast.unparse(k.value) for k in v.keywords] == ["int"]:
+                    t = self.expr(v.args[0], cx)
+                elif isinstance(v, ast.DictComp) and ast.unparse(v) == "{k: np.array(v, dtype=int) for k, v in " + ast.unparse(v.generators[0].iter) + "}" \
+                        and ast.unparse(v.generators[0].iter).endswith(".items()"):
+                    t = self.expr(v.generators[0].iter.func.value, cx)
+                elif isinstance(v, ast.Name):
+                    t = self.expr(v, cx)
+                else:
+                    raise Untranslatable("recorded attribute value " + ast.unparse(st))
+                c2 = cx.child()
+                c2.recorded = dict(getattr(cx, "recorded", {})); c2.recorded[tgt.attr] = t
+                return self.block(rest, c2, k, ind)
             raise Untranslatable("assignment target " + ast.unparse(st))
         if isinstance(st, ast.AugAssign) and isinstance(st.target, ast.Name) and isinstance(st.op, ast.Add):
             cur = cx.env.get(st.target.id)
@@ -656,6 +702,13 @@ class Translator:
             if getattr(cx, "in_loop", False):
                 raise Untranslatable("return inside a loop")
             v = self.expr(st.value, cx)
+            want = RECORDED_ATTRS.get((cx.cls, cx.fn))
+            if want:
+                rec = getattr(cx, "recorded", {})
+                missing = [a for a in want if a not in rec]
+                if missing:
+                    raise Untranslatable(f"{cx.cls}.{cx.fn} does not set {missing}")
+                v = ("(" + ", ".join([v[0]] + [rec[a][0] for a in want]) + ")", Tup(v[1], *[rec[a][1] for a in want]))
             cx.ret_types.append(v[1])
             return [f"{pad}" + (f"pure {v[0]}" if cx.res else v[0])]
         if isinstance(st, ast.Continue):
@@ -1056,6 +1109,52 @@ class Translator:
         raise Untranslatable("append " + ast.unparse(call))
 
     # ---------------------------------------------------------------------------------------- functions
+    def module_function(self, fname):
+        """the index-selecting prefix of a module-level builder function (up to, not including, the stop statement)"""
+        rel, params, ret, stop, retvar = MODULE_FUNCS[fname]
+        fn = None
+        for n in self.tree(rel).body:
+            if isinstance(n, ast.FunctionDef) and n.name == fname:
+                fn = n
+        if fn is None:
+            raise Untranslatable(f"function {fname} not found in {rel}")
+        got = [a.arg for a in fn.args.args]
+        if got != [p for p, _ in params]:
+            raise Untranslatable(f"{fname}: parameters are {got}")
+        cx = Ctx(self, fname, False, None)
+        cx.fn = fname
+        cx.ret_types = []
+        binders = []
+        for pname, t in params:
+            if t is None:
+                continue
+            if isinstance(t, tuple) and t[0] == "Rec":
+                cx.env[pname] = (pname, t)
+                for fld, fty in RECORDS[t[1]].items():
+                    binders.append(f"({pname}_{fld} : {lean_type(fty)})")
+            else:
+                cx.env[pname] = (pname, t)
+                binders.append(f"({pname} : {lean_type(t)})")
+        body = []
+        stopped = False
+        for st in fn.body:
+            if ast.unparse(st).startswith(stop):
+                stopped = True
+                break
+            body.append(st)
+        if not stopped:
+            raise Untranslatable(f"{fname}: the statement `{stop}` was not found")
+        def fall(c, i):
+            if retvar not in c.env:
+                raise Untranslatable(f"{fname}: {retvar} is not defined")
+            v = c.env[retvar]
+            if v[1] != ret:
+                raise Untranslatable(f"{fname}: {retvar} has type {v[1]}")
+            return ["  " * i + v[0]]
+        lines = self.block(body, cx, fall, 1)
+        head = f"/-- `{rel}::{fname}` (the index selection, up to `{stop}`) -/\ndef {fname} " + " ".join(binders) + f" : {lean_type(ret)} :="
+        return head + "\n" + "\n".join(lines)
+
     def function(self, rel, cname, mname, variant=None):
         sig = SIGS[(cname, mname)]
         fn = self.method(rel, cname, mname)
@@ -1071,7 +1170,7 @@ class Translator:
         for p, t in sig["args"]:
             if isinstance(t, list):
                 t = variant
-                suffix = "_" + variant.lower()
+                suffix = "_" + variant_name(variant)
             cx.env[p] = (p, t)
             binders.append(f"({p} : {lean_type(t)})")
         def fall(c, i):
@@ -1086,6 +1185,22 @@ class Translator:
         return head + "\n" + "\n".join(lines)
 
 
+# attributes a method leaves on `self` that are part of its result (returned as a tuple after the return value)
+RECORDED_ATTRS = {
+    ("Stratification", "_stratify_compartments"): ["_strat_base_indices", "_passthrough_base_indices", "_passthrough_target_indices",
+                                                   "_stratum_target_indices", "_new_size"],
+}
+
+MODULE_FUNCS = {
+    # name -> (file, params [(name, type | None = not used by the translated prefix)], result type, statement the prefix stops before, returned variable)
+    "build_flow_output": ("runner/jax/derived_outputs.py",
+                          [("request", ("Rec", "FlowReq")), ("name", None), ("times", None), ("model_flows", Lst("Flow")), ("idx_cache", None)],
+                          Lst("Nat"), "flow_indices = jnp.array(flow_indices)", "flow_indices"),
+    "build_compartment_output": ("runner/jax/derived_outputs.py",
+                                 [("request", ("Rec", "CompReq")), ("name", None), ("compartments", Lst("Comp"))],
+                                 Lst("Nat"), "def summed_compartment_outputs", "indices"),
+}
+
 # signatures of the translated methods (types of `self`, parameters and result; `res` = may raise (assert);
 # `known` = expressions that are not None by the class's constructor assertions)
 SIGS = {
@@ -1094,13 +1209,15 @@ SIGS = {
     ("Compartment", "_has_strata"): dict(self="Comp", args=[("strata", "Strata")], ret="Bool"),
     ("Compartment", "has_stratum"): dict(self="Comp", args=[("stratification", "Str"), ("stratum", "Str")], ret="Bool"),
     ("Compartment", "has_name"): dict(self="Comp", args=[("comp", ["Str", "Comp"])], ret="Bool"),
-    ("Compartment", "has_name_in_list"): dict(self="Comp", args=[("comps", Lst("Comp"))], ret="Bool"),
+    ("Compartment", "has_name_in_list"): dict(self="Comp", args=[("comps", [Lst("Comp"), Lst("Str")])], ret="Bool"),
     ("Compartment", "stratify"): dict(self="Comp", args=[("stratification_name", "Str"), ("stratum_name", "Str")], ret="Comp"),
     ("Compartment", "serialize"): dict(self="Comp", args=[], ret="Str"),
     ("BaseFlow", "is_match"): dict(self="Flow", args=[("name", "Str"), ("source_strata", "Strata"), ("dest_strata", "Strata")], ret="Bool"),
     ("Stratification", "get_flow_adjustment"): dict(self="Strat", args=[("flow", "Flow")], ret=Opt(ADJDICT), res=True),
     ("Stratification", "is_ageing"): dict(self="Strat", args=[], ret="Bool"),
     ("Stratification", "is_strain"): dict(self="Strat", args=[], ret="Bool"),
+    ("Stratification", "_stratify_compartments"): dict(self="Strat", args=[("comps", Lst("Comp"))],
+                                                       ret=Tup(Lst("Comp"), Lst("Nat"), Lst("Nat"), Lst("Nat"), "IdxDict", "Nat")),
     ("BaseEntryFlow", "stratify"): dict(self="Flow", args=[("strat", "Strat")], ret=Lst("Flow"), res=True, known=("self.dest",)),
     ("BaseExitFlow", "stratify"): dict(self="Flow", args=[("strat", "Strat")], ret=Lst("Flow"), res=True, known=("self.source",)),
     ("BaseTransitionFlow", "stratify"): dict(self="Flow", args=[("strat", "Strat")], ret=Lst("Flow"), res=True, known=("self.source", "self.dest")),
@@ -1115,6 +1232,11 @@ LOCAL_TYPES = {
     ("BaseEntryFlow", "stratify", "new_adjustments"): Lst(Opt("Adj")),
     ("BaseExitFlow", "stratify", "new_adjustments"): Lst(Opt("Adj")),
     ("BaseTransitionFlow", "stratify", "new_adjustments"): Lst(Opt("Adj")),
+    ("build_flow_output", "build_flow_output", "flow_indices"): Lst("Nat"),
+    ("Stratification", "_stratify_compartments", "strat_base_indices"): Lst("Nat"),
+    ("Stratification", "_stratify_compartments", "passthrough_base_indices"): Lst("Nat"),
+    ("Stratification", "_stratify_compartments", "passthrough_target_indices"): Lst("Nat"),
+    ("Stratification", "_stratify_compartments", "new_comps"): Lst("Comp"),
 }
 
 HEADER = """-- GENERATED by harness/translate/gen_struct.py from /repo (compartment.py, flows.py, stratification.py). Do not edit.
@@ -1136,12 +1258,13 @@ def main():
         ("compartment.py", "Compartment", "has_strata", None), ("compartment.py", "Compartment", "_has_strata", None),
         ("compartment.py", "Compartment", "is_match", None), ("compartment.py", "Compartment", "has_stratum", None),
         ("compartment.py", "Compartment", "has_name", "Str"), ("compartment.py", "Compartment", "has_name", "Comp"),
-        ("compartment.py", "Compartment", "has_name_in_list", None), ("compartment.py", "Compartment", "stratify", None),
+        ("compartment.py", "Compartment", "has_name_in_list", Lst("Comp")), ("compartment.py", "Compartment", "has_name_in_list", Lst("Str")), ("compartment.py", "Compartment", "stratify", None),
         ("compartment.py", "Compartment", "serialize", None),
         ("flows.py", "BaseFlow", "is_match", None),
         ("stratification.py", "Stratification", "get_flow_adjustment", None),
         ("flows.py", "BaseEntryFlow", "stratify", None), ("flows.py", "BaseExitFlow", "stratify", None),
         ("flows.py", "BaseTransitionFlow", "stratify", None), ("flows.py", "AbsoluteFlow", "stratify", None),
+        ("stratification.py", "Stratification", "_stratify_compartments", None),
     ]
     # class-attribute tables: is_ageing / is_strain
     try:
@@ -1174,6 +1297,14 @@ def main():
             report[key] = "untranslatable: " + str(e)
         except Exception as e:     # a malformed source file is a broken obligation, not a crash
             report[key] = "untranslatable: internal " + type(e).__name__ + ": " + str(e)
+    for fname in MODULE_FUNCS:
+        try:
+            out.append(tr.module_function(fname) + "\n")
+            report[fname] = "ok"
+        except Untranslatable as e:
+            report[fname] = "untranslatable: " + str(e)
+        except Exception as e:
+            report[fname] = "untranslatable: internal " + type(e).__name__ + ": " + str(e)
     out.append("end\nend Summer.Generated.Struct\n")
     os.makedirs(OUT, exist_ok=True)
     text = "\n".join(out)
